@@ -59,6 +59,7 @@ type rlIssuerAlt struct {
 var rlIssuers = []rlIssuerAlt{
 	{"ca", "ok"}, {"nocrlsign", "must-error"}, {"noku", "must-error"}, {"noskid", "must-error"}, {"nil", "must-error"},
 	{"multidn", "ok"}, {"utf8dn", "ok"}, {"struct", "ok"},
+	{"struct2", "ok"}, // another hand-built issuer value: a reuse history moving struct <-> struct2 renames the SAME object in place
 }
 
 func rlSpace() *space {
@@ -88,12 +89,80 @@ func rlSpace() *space {
 		field{"issuer", in},
 		field{"signer", signerNames})
 	sp.canonical = func(a []int) bool { return slotsCanonical(a, 4) }
-	sp.run = runRL
+	sp.slotPer = 4
+	sp.api = "CreateRevocationList"
+	sp.build = func(r *runner, a []int) caseObj { return buildRL(r, a) }
+	sp.check = checkRL
+	sp.editAlts = func(f, cur int, full bool) []int { return signerEditAlts(f == 17, f, cur, full, len(sp.fields[f].alts)) }
 	return sp
 }
 
-func runRL(r *runner, a []int) {
-	c := r.c
+// rlCase: the inputs of CreateRevocationList and what the list must report.
+type rlCase struct {
+	t         *x509.RevocationList
+	k         *keyMat
+	alg       x509.SignatureAlgorithm
+	is        *issuer
+	issuerArg *x509.Certificate
+
+	num       numAlt
+	upd       updPair
+	ia        rlIssuerAlt
+	want      []entry
+	listExtra []xext
+}
+
+func (cs *rlCase) create() ([]byte, error) {
+	return x509.CreateRevocationList(fx.NewRand("c05-rl"), cs.t, cs.issuerArg, cs.k.signer)
+}
+
+func (cs *rlCase) inputs() map[string]any {
+	return map[string]any{"template": cs.t, "issuer": cs.issuerArg}
+}
+
+func (cs *rlCase) adopt(donor caseObj, f int) {
+	d := donor.(*rlCase)
+	switch {
+	case f == 0: // entry count: the same list is cut or extended
+		if len(d.t.RevokedCertificates) <= len(cs.t.RevokedCertificates) {
+			cs.t.RevokedCertificates = cs.t.RevokedCertificates[:len(d.t.RevokedCertificates)]
+		} else {
+			cs.t.RevokedCertificates = append(cs.t.RevokedCertificates, d.t.RevokedCertificates[len(cs.t.RevokedCertificates):]...)
+		}
+	case f >= 1 && f <= 12: // a field of an entry: written into the existing element
+		s := (f - 1) / 4
+		if s >= len(cs.t.RevokedCertificates) || s >= len(d.t.RevokedCertificates) {
+			return // the slot fell out of the list with an entry-count edit
+		}
+		e, de := &cs.t.RevokedCertificates[s], &d.t.RevokedCertificates[s]
+		switch (f - 1) % 4 {
+		case 0:
+			e.SerialNumber = de.SerialNumber
+		case 1:
+			e.RevocationTime = de.RevocationTime
+		case 2:
+			e.ReasonCode = de.ReasonCode
+		case 3:
+			e.ExtraExtensions = de.ExtraExtensions
+		}
+	case f == 13:
+		cs.t.Number = d.t.Number
+	case f == 14:
+		cs.t.ThisUpdate, cs.t.NextUpdate = d.t.ThisUpdate, d.t.NextUpdate
+	case f == 15:
+		cs.t.ExtraExtensions = d.t.ExtraExtensions
+	case f == 16:
+		cs.issuerArg = adoptIssuer(cs.is, cs.issuerArg, d.is, d.issuerArg)
+		cs.is = d.is
+	case f == 17:
+		cs.t.SignatureAlgorithm, cs.alg, cs.k = d.t.SignatureAlgorithm, d.alg, d.k
+		// the issuer fixture belongs to the key kind
+		cs.issuerArg = adoptIssuer(cs.is, cs.issuerArg, d.is, d.issuerArg)
+		cs.is = d.is
+	}
+}
+
+func buildRL(r *runner, a []int) *rlCase {
 	n := entryCounts[a[0]]
 	num, upd := rlNumbers[a[13]], rlUpdates[a[14]]
 	ia := rlIssuers[a[16]]
@@ -105,7 +174,11 @@ func runRL(r *runner, a []int) {
 	unkCrit := xext{oidUnknownB, true, "0101ff"}
 	userReason := xext{oidReason, false, reasonValue(5)}
 
-	t := &x509.RevocationList{Number: num.n, ThisUpdate: upd.this, NextUpdate: upd.next, SignatureAlgorithm: alg}
+	var number *big.Int // a big.Int of the case's own
+	if num.n != nil {
+		number = new(big.Int).Set(num.n)
+	}
+	t := &x509.RevocationList{Number: number, ThisUpdate: upd.this, NextUpdate: upd.next, SignatureAlgorithm: alg}
 	var want []entry
 	for s := 0; s < n; s++ {
 		sa, ta, ra, xa := a[1+4*s], a[2+4*s], a[3+4*s], a[4+4*s]
@@ -155,6 +228,14 @@ func runRL(r *runner, a []int) {
 		t.ExtraExtensions = append(t.ExtraExtensions, x.z())
 	}
 	t.Extensions = []pkix.Extension{{Id: oid(oidUnknownC), Value: []byte{1, 1, 0}}} // documented as ignored
+	return &rlCase{t: t, k: k, alg: alg, is: is, issuerArg: is.arg(), num: num, upd: upd, ia: ia, want: want, listExtra: listExtra}
+}
+
+// checkRL judges the outcome of the creation call by the expectations of exp.
+func checkRL(r *runner, a []int, expCase caseObj, der []byte, err error) {
+	c := r.c
+	cs := expCase.(*rlCase)
+	k, alg, is, num, upd, ia, want, listExtra := cs.k, cs.alg, cs.is, cs.num, cs.upd, cs.ia, cs.want, cs.listExtra
 
 	// ---- expectation on creation ----
 	exp := "ok"
@@ -169,14 +250,6 @@ func runRL(r *runner, a []int) {
 		exp = "either"
 	}
 
-	var der []byte
-	var err error
-	panicked, msg, site := ev.Try(func() { der, err = x509.CreateRevocationList(fx.NewRand("c05-rl"), t, is.z, k.signer) })
-	c.Transitions.Add(1)
-	if panicked {
-		r.viol("panic@"+site+" in CreateRevocationList: "+ev.MsgClass(msg), msg)
-		return
-	}
 	if exp == "must-error" {
 		c.Evaluations.Add(1)
 		if err == nil {
@@ -205,7 +278,7 @@ func runRL(r *runner, a []int) {
 
 	// ---- parse back ----
 	var rl *x509.RevocationList
-	panicked, msg, site = ev.Try(func() { rl, err = x509.ParseRevocationList(der) })
+	panicked, msg, site := ev.Try(func() { rl, err = x509.ParseRevocationList(der) })
 	c.Transitions.Add(1)
 	if panicked {
 		r.viol("panic@"+site+" in ParseRevocationList of a created list: "+ev.MsgClass(msg), msg)
